@@ -33,8 +33,10 @@ static long live0; static uint64_t fd0;
 /* T_LATE: the first connect goes to the port that refuses; once the client has seen the refusal (a retry is
  * pending) the service "comes up": the harness points the connection object at the worker's listener, so the
  * retry connects and is served */
-enum { T_PAIR, T_TCP, T_REFUSED, T_LATE, NTRANSPORT };
-static const char *tnames[] = { "pair", "tcp", "refused", "tcp-refused-then-listening" };
+/* T_UNIX: evhttp_connection_base_bufferevent_unix_new to a path nobody listens on: connect() fails at once
+ * (ENOENT), i.e. inside evhttp_make_request / evhttp_connection_connect_ instead of in a later loop iteration */
+enum { T_PAIR, T_TCP, T_REFUSED, T_LATE, T_UNIX, NTRANSPORT };
+static const char *tnames[] = { "pair", "tcp", "refused", "tcp-refused-then-listening", "unix-no-listener" };
 
 struct script { const char *label; const char *bytes; int close_after; };
 static const struct script scripts[] = {
@@ -57,6 +59,7 @@ struct creq {
 	struct evhttp_request *req;
 	int made, done, done_ok, err, chunks;
 	int cancelled, dropped;          /* cancelled by the user / freed with the connection by the user */
+	int make_failed;                 /* evhttp_make_request returned -1: "the request has been freed", no callback may follow */
 	int done_after_cancel;
 };
 static struct creq R[MAXREQ]; static int nR;
@@ -82,7 +85,7 @@ static void c_make(const char *uri)
 	q->made = 1;
 	if (evhttp_make_request(c_evcon, q->req, EVHTTP_REQ_GET, uri) != 0) {
 		/* documented: the request has been freed, no callback */
-		q->dropped = 1;
+		q->dropped = 1; q->make_failed = 1;
 		mc_observe("make_request(%s)=-1 ", uri);
 	}
 }
@@ -248,7 +251,7 @@ static int serve(struct peer *p, const struct script *sc, int transport)
 
 static void run_client(void)
 {
-	int tmask = mc_param("transports", 15), smask = mc_param("scripts", 15);
+	int tmask = mc_param("transports", 31), smask = mc_param("scripts", 15);
 	int tl[NTRANSPORT], nt = 0, sl[NSCRIPTS], ns = 0;
 	for (int i = 0; i < NTRANSPORT; i++) if (tmask >> i & 1) tl[nt++] = i;
 	for (int i = 0; i < NSCRIPTS; i++) if (smask >> i & 1) sl[ns++] = i;
@@ -263,7 +266,7 @@ static void run_client(void)
 	c_evcon_freed = c_abandoned = c_events = c_action_done = c_in_cb = 0;
 	c_plan_action = plan ? 1 + (plan - 1) % (NACTIONS - 1) : A_NONE;
 	c_plan_at = plan ? 1 + (plan - 1) / (NACTIONS - 1) : 0;
-	if (transport == T_REFUSED && si != 0) { mc_observe("client: n/a (no response is ever sent to a refused connect)"); return; }
+	if ((transport == T_REFUSED || transport == T_UNIX) && si != 0) { mc_observe("client: n/a (no response is ever sent to a refused connect)"); return; }
 	mc_observe("client %s nreq=%d retries=%d %s action=%s@%d: ", tnames[transport], nreq, retries, sc->label, anames[c_plan_action], c_plan_at);
 	MC_COUNT("client_scenarios");
 	hc_exec_begin();
@@ -282,6 +285,8 @@ static void run_client(void)
 		hc_worker_listener_drain();
 		listening = 0;
 		c_evcon = evhttp_connection_base_new(hc_base, NULL, "127.0.0.1", (ev_uint16_t)hc_refused_port);
+	} else if (transport == T_UNIX) {
+		c_evcon = evhttp_connection_base_bufferevent_unix_new(hc_base, NULL, "/nonexistent-verif-dir/no-such-socket");
 	} else {
 		c_evcon = evhttp_connection_base_new(hc_base, NULL, "127.0.0.1", (ev_uint16_t)hc_refused_port);
 	}
@@ -289,7 +294,9 @@ static void run_client(void)
 	evhttp_connection_set_retries(c_evcon, retries);
 	/* a connection made from an existing bufferevent has no timeouts armed until one is set explicitly */
 	evhttp_connection_set_timeout(c_evcon, 30);
-	for (int r = 0; r < nreq; r++) c_make(r ? "/second" : "/first");
+	/* (a connect that fails synchronously runs callbacks from inside evhttp_make_request: the user action may
+	 * already have freed the connection or abandoned the run) */
+	for (int r = 0; r < nreq && !c_evcon_freed && !c_abandoned; r++) c_make(r ? "/second" : "/first");
 
 	int rounds = 0, idle_rounds = 0;
 	for (;;) {
@@ -317,6 +324,14 @@ static void run_client(void)
 				memset(p, 0, sizeof *p); p->fd = fd; p->tcp = 1;
 				progress = 1;
 				MC_COUNT("tcp_connections_accepted");
+				if (!c_evcon_freed && c_evcon->bufev) {
+					/* environment hygiene: the client's socket is closed abortively too, so that no side of any
+					 * connection is left in TIME_WAIT (a million connections per run would otherwise use up the
+					 * machine's ephemeral ports); close() behaves the same for the library */
+					int cfd = bufferevent_getfd(c_evcon->bufev);
+					struct linger lg = { 1, 0 };
+					if (cfd >= 0) setsockopt(cfd, SOL_SOCKET, SO_LINGER, &lg, sizeof lg);
+				}
 				c_loop();
 				hc_real_wait(fd, POLLIN, 100);
 			}
@@ -358,6 +373,7 @@ static void run_client(void)
 		MC_COUNT("oracle_completion_count");
 		if (q->done > 1) mc_fail("C27/client/completion-twice", "request %d: completion callback ran %d times", i + 1, q->done);
 		if (q->err > 1) mc_fail("C27/client/error-cb-twice", "request %d: error callback ran %d times", i + 1, q->err);
+		if (q->make_failed && q->done) mc_fail("C27/client/completion-although-make-request-failed", "request %d: evhttp_make_request returned -1 (request freed, per its documentation) but the completion callback ran %d time(s)", i + 1, q->done);
 		if (q->done_after_cancel) mc_fail("C27/client/completion-after-cancel", "request %d: completion callback ran after evhttp_cancel_request", i + 1);
 		if (req_live(q) && !c_abandoned && !c_evcon_freed) {
 			char key[160];
